@@ -15,6 +15,7 @@ package main
 // Everything is written and read with the REAL FileSnapshotStore / raft.LastStateRaw / OfflineState / CleanupRaft / SnapshotSave.
 
 import (
+	"bytes"
 	"context"
 	"crypto/rand"
 	"fmt"
@@ -115,7 +116,7 @@ func parseSnapsCase(f []string) (snapsCase, bool) {
 		}
 		return c, false
 	}
-	if strings.HasPrefix(c.op, "s") {
+	if strings.HasPrefix(c.op, "s") || strings.HasPrefix(c.op, "i") {
 		n, err := strconv.Atoi(c.op[1:])
 		return c, err == nil && n >= 0 && n < len(cidTab)
 	}
@@ -248,6 +249,23 @@ func runSnaps(c snapsCase) string {
 		if err := safely(func() error { return raft.CleanupRaft(raftCfg(folder, 3)) }); err != nil {
 			failed = 1
 		}
+	case c.op[0] == 'i':
+		// round 8c: `state import` of {CidN(n)} with the REAL raft state manager (Clean, then SnapshotSave)
+		n, _ := strconv.Atoi(c.op[1:])
+		_, pub, err := crypto.GenerateEd25519Key(rand.Reader)
+		if err != nil {
+			fatal("snaps setup: %v", err)
+		}
+		id, _ := peer.IDFromPublicKey(pub)
+		var cids []int
+		if n > 0 {
+			cids = []int{n}
+		}
+		exp := exportOfCids(cids, id)
+		m := startManager(base, id)
+		if err := safely(func() error { return m.ImportState(bytes.NewReader(exp)) }); err != nil {
+			failed = 1
+		}
 	case c.op[0] == 's':
 		n, _ := strconv.Atoi(c.op[1:])
 		if err := safely(func() error { return raft.SnapshotSave(raftCfg(folder, 3), tagState(n), pids) }); err != nil {
@@ -354,6 +372,8 @@ func genSnapsCase(r *common.Rng, k, total int) snapsCase {
 		c.op = "o"
 	case x < 4:
 		c.op = "c"
+	case x < 6:
+		c.op = fmt.Sprintf("i%d", r.Intn(9))
 	default:
 		c.op = fmt.Sprintf("s%d", r.Intn(9))
 	}
